@@ -1,5 +1,5 @@
 #!/usr/bin/env python3
-"""tools/confirm_seeds.py <tag> [--import-from DIR] [--jobs N]
+"""tools/confirm_seeds.py <tag> [Cxx ...] [--import-from DIR] [--jobs N]
 Stages (optionally) and confirms a round of seeded changes, each in its OWN scratch worktree of /repo's HEAD (/repo untouched):
   - the patch applies; the test suite with the change has exactly the baseline failures; seed_demo exits 1 with the change, 0 without.
 Results are merged into seeded/Cxx_<tag>/meta.json.  The checks themselves are run afterwards with tools/reverify_parallel.sh."""
@@ -72,7 +72,7 @@ def main():
     tag = args[0]
     src = args[args.index("--import-from") + 1] if "--import-from" in args else None
     jobs = int(args[args.index("--jobs") + 1]) if "--jobs" in args else 8
-    pids = [f"C{i:02d}" for i in range(1, 21)]
+    pids = [a for a in args[1:] if a.startswith("C") and len(a) == 3] or [f"C{i:02d}" for i in range(1, 21)]
     with ThreadPoolExecutor(jobs) as ex:
         for sname, res in ex.map(lambda p: one(p, tag, src), pids):
             ok = res.get("patch_applies_to_repo_HEAD") and res.get("suite_same_as_baseline") and res.get("demo_exit_with_change") == 1 \
